@@ -182,7 +182,11 @@ fn get_key(name: &Name) -> Vec<u8> {
     name.get_labels()
         .iter()
         .rev()
-        .flat_map(|label| label.to_string().into_bytes())
+        .flat_map(|label| {
+            // length-prefix every label so that the key keeps the label boundaries
+            let label = label.to_string().into_bytes();
+            std::iter::once(label.len() as u8).chain(label)
+        })
         .collect()
 }
 
